@@ -15,6 +15,8 @@ Tr == ndJsonDeserialize(IOEnv.TRACE_FILE)
 VARIABLES l, nbad
 tvars == <<l, nbad>>
 
+DTypeUndocumented == {"propagate_times", "wavelength_to_inverse_velocity"}
+
 JudgeCall(e) ==
     IF e.k \notin KernelNames THEN "unknown_kernel"
     ELSE IF DOMAIN e.U # ArgSet(e.k) \/ DOMAIN e.D # ArgSet(e.k) THEN "operands_differ_from_signature"
@@ -25,7 +27,13 @@ JudgeCall(e) ==
          (IF \E a \in ArgSet(e.k) : IsInt(e.D[a]) THEN "ok" ELSE "float_operands_refused")
     ELSE IF e.status # "ok" THEN "unknown_status"
     ELSE IF e.out # OutName(e.k, e.U, "none") THEN "output_unit"
-    ELSE IF e.dt # ResultDType(Kernel[e.k].data, e.D, "none") THEN "output_dtype"
+    ELSE IF /\ e.dt # ResultDType(Kernel[e.k].data, e.D, "none")
+            \* the chopper-cascade helpers document no dtype contract: with a single-precision
+            \* operand both readings of the property (float32 result / "computed in double") are
+            \* accepted; with double / integer operands the result must be double.
+            /\ ~(e.k \in DTypeUndocumented /\ e.dt = "float32"
+                 /\ \E a \in ArgSet(e.k) : e.D[a] = "float32")
+         THEN "output_dtype"
     ELSE IF ~e.close THEN "value_changed_by_reexpression"
     ELSE "ok"
 
